@@ -342,9 +342,19 @@ def run(tier, replay=None):
         raise MachineryError('missing concrete cases')
     V.tlc_runs.append({'what': 'concrete cases reused', 'load': len(lcases),
                        'roundtrip': len(dcases), 'json': len(jcases)})
+    # documents that are refused late (by a constructor: unknown enum member,
+    # string-like or __init__ that raises) have error paths of their own; one
+    # history in three takes its flow-style document from this pool
+    late = [c for c in lcases if c['res'][0] == 'ERR' and c['model'] in (
+        'enum_str', 'lastenum', 'enumsav', 'strenum', 'raising', 'raising2',
+        'tree', 'pathdate')]
+    V.notes['late_refusal_pool'] = len(late)
     items = []
-    for h in hists:
-        items.append((h, rnd.sample(lcases, 2), rnd.sample(dcases, 2),
+    for i, h in enumerate(hists):
+        ls = rnd.sample(lcases, 2)
+        if late and i % 3 == 0:
+            ls[0] = rnd.choice(late)
+        items.append((h, ls, rnd.sample(dcases, 2),
                       rnd.sample(jcases, 2)))
     chunks = chunked(items, NCPU * 2)
     parts = common.fork_map(_chunk, chunks)
